@@ -143,6 +143,7 @@ type Violation struct {
 	Inputs  []InputRec
 	Trace   []string
 	Detail  string
+	NoNative bool
 }
 
 type ChoiceRec struct {
@@ -180,6 +181,7 @@ type State struct {
 	symSeq     map[string]int
 	symUndo    []string
 	extraGlobs map[*ssa.Global]int32
+	extraGlobIDs map[int32]bool
 
 	choices []ChoiceRec
 	inputs  []InputRec
@@ -201,6 +203,7 @@ type State struct {
 	harness string
 	opts    HarnessOpts
 	fmtLog  []fmtRec
+	noNative bool // violations on this path cannot be replayed natively
 	curWorker *Worker // the worker currently executing this state
 	rawChoices []int // every choose() result in order (deterministic engine replay)
 	replayAt int
@@ -238,6 +241,12 @@ func (s *State) fork() *State {
 		c.symSeq[n]--
 	}
 	c.symUndo = nil
+	if s.extraGlobIDs != nil {
+		c.extraGlobIDs = make(map[int32]bool, len(s.extraGlobIDs))
+		for k, v := range s.extraGlobIDs {
+			c.extraGlobIDs[k] = v
+		}
+	}
 	if s.extraGlobs != nil {
 		c.extraGlobs = make(map[*ssa.Global]int32, len(s.extraGlobs))
 		for k, v := range s.extraGlobs {
